@@ -43,6 +43,28 @@ fn colliding_names(rng: &mut Rng, prefix: &str, ext: &str, want: usize) -> Vec<S
     buckets.into_values().max_by_key(|b| b.len()).unwrap_or_default()
 }
 
+/// names sharing prefix and extension whose 16-bit checksum is exactly `target`
+fn names_with_hash(rng: &mut Rng, prefix: &str, ext: &str, target: u16, want: usize) -> Vec<String> {
+    let mut out: Vec<String> = Vec::new();
+    for _ in 0..2_000_000 {
+        let mut s = String::from(prefix);
+        for _ in 0..5 {
+            s.push((b'a' + rng.below(26) as u8) as char);
+        }
+        for x in b'a'..=b'z' {
+            let cand = format!("{}{}{}", s, x as char, ext);
+            if bsd16(&cand) == target && !out.contains(&cand) {
+                out.push(cand);
+                break;
+            }
+        }
+        if out.len() >= want {
+            break;
+        }
+    }
+    out
+}
+
 pub struct ListSource {
     pub ops: Vec<Op>,
     pub i: usize,
@@ -57,7 +79,7 @@ impl OpSource for ListSource {
 }
 
 fn family(rng: &mut Rng, k: u64) -> (String, Vec<String>) {
-    match k % 10 {
+    match k % 11 {
         0 => ("same-6-prefix".into(), (0..60 + rng.below(200)).map(|i| format!("longfilename{}.txt", i)).collect()),
         1 => {
             let n = 14 + rng.usize_below(8);
@@ -116,6 +138,20 @@ fn family(rng: &mut Rng, k: u64) -> (String, Vec<String>) {
                 v.push(format!("file{}.t", i));
             }
             ("exact-8.3-and-case".into(), v)
+        }
+        9 => {
+            // the checksum-suffixed form exhausted at the top of the 16-bit range: the retry has to wrap to 0000
+            let pre = *rng.pick(&["wraparound-", "x y z w v u ", "+++++++", "Wrap.Around."]);
+            let ext = *rng.pick(&[".txt", ".c", ""]);
+            let top = if rng.chance(1, 2) { 0xFFFFu16 } else { 0xFFFFu16 - rng.below(3) as u16 };
+            let n = 20 + rng.usize_below(12);
+            let mut v = names_with_hash(rng, pre, ext, top, n);
+            if top != 0xFFFF {
+                let more = names_with_hash(rng, pre, ext, 0xFFFF, 11);
+                v.extend(more);
+            }
+            v.extend(names_with_hash(rng, pre, ext, 0, 11));
+            ("hash-wraparound".into(), v)
         }
         7 => {
             let n = 16 + rng.usize_below(10);
